@@ -59,7 +59,8 @@ type esApp struct {
 	mw      bool
 	after   bool
 	grpMw   bool
-	covered bool // a sub-application is mounted at "/" inside this one (the parent keeps no handler of its own)
+	covered bool // a sub-application is mounted at "/" inside this one
+	keepEH  bool // ... and this one keeps a handler of its own all the same (the inner one is the innermost)
 	covers  bool // this node is such a sub-application
 	alias   int  // > 0: this node is a second mount of the application object of node alias
 	slash   bool // mounted with a trailing slash in the prefix ("/api/"): the same mount
@@ -135,7 +136,8 @@ func esContains(prefix, path string) bool {
 func esChosen(path string, tree []esApp) int {
 	best := 0
 	for i := 1; i < len(tree); i++ {
-		if tree[i].hasEH && esContains(tree[i].full, path) && (best == 0 || len(tree[i].full) > len(tree[best].full)) {
+		if tree[i].hasEH && esContains(tree[i].full, path) && (best == 0 || len(tree[i].full) > len(tree[best].full) ||
+			len(tree[i].full) == len(tree[best].full) && tree[i].covers && tree[i].parent == best) {
 			best = i
 		}
 	}
@@ -182,11 +184,17 @@ func errselMain(s *simrt.Sim, info *harness.RunInfo) {
 		k := s.Draw(len(alphabet))
 		ok := false
 		rootMount := false
-		if a.parent != 0 && a.group == "" && !tree[a.parent].hasEH && !tree[a.parent].covered && s.Chance(150) {
-			// mounted at "/" inside a mounted application that configured no handler of its own: the two share
-			// one prefix, and only the inner one has a handler to offer
+		// (not chained: an application mounted at "/" inside one that is itself mounted at "/" gets the same
+		// key as its parent in fiber's mount table, see DESIGN.md section 5)
+		if a.parent != 0 && a.group == "" && !tree[a.parent].covered && !tree[a.parent].covers && s.Chance(150) {
+			// mounted at "/" inside a mounted application: the two share one prefix. Either only the inner
+			// one has a handler to offer, or both have and the inner one is the innermost
 			a.prefix, a.full, ok, rootMount = "/", tree[a.parent].full, true, true
 			tree[a.parent].covered = true
+			tree[a.parent].keepEH = tree[a.parent].hasEH && s.Chance(500)
+			if tree[a.parent].keepEH {
+				s.Count("probe_root_mounted_inner_app_both_handlers")
+			}
 		}
 		for j := 0; j < len(alphabet) && !rootMount; j++ {
 			a.prefix = alphabet[(k+j)%len(alphabet)]
@@ -256,7 +264,7 @@ func errselMain(s *simrt.Sim, info *harness.RunInfo) {
 		}
 	}
 	for i := range tree {
-		if tree[i].covered {
+		if tree[i].covered && !tree[i].keepEH {
 			tree[i].hasEH = false
 		}
 	}
